@@ -871,6 +871,7 @@ var kindTable = []struct {
 	kind string
 }{
 	{regexp.MustCompile(`resolver failed`), "resolver"},
+	{regexp.MustCompile(`can not be passed as a`), "resolver"}, // a reflected method whose parameter cannot take the argument: the field fails
 	{regexp.MustCompile(`nth failed`), "nth"},
 	{regexp.MustCompile(`is not a field in`), "notfield"},
 	{regexp.MustCompile(`meta-field is only on the query object`), "notfield"},
